@@ -157,6 +157,21 @@ Theorem maddpg_eval_in_box : forall a box y noise,
 Proof. exact maddpg_cont_eval_in_box. Qed.
 Print Assumptions maddpg_eval_in_box.
 
+(* the evaluation-mode clamp of the repaired MADDPG/MATD3 guards against float rounding only: over the rationals it is the identity *)
+Theorem maddpg_eval_clamp_is_identity : forall a box y noise,
+  squashing a = true -> finite_box box = true -> Forall wf_bounds box -> length y = length box ->
+  (forall x, In x y -> in_act_range a x) ->
+  Forall2 Qeq (clip_vec box (maddpg_cont_row false a box y noise)) (maddpg_cont_row false a box y noise).
+Proof. exact maddpg_eval_clamp_identity. Qed.
+Print Assumptions maddpg_eval_clamp_is_identity.
+
+(* greedy branch: filling masked entries with ANY finite constant (e.g. -1.0) lets a masked action win as soon as every
+   allowed value lies below it; only -infinity (greedy_legal_and_best) is safe *)
+Theorem finite_mask_fill_refuted : forall c : Q,
+  exists v legal, In true legal /\ nth_error legal (argmax_first (fill_const c v legal)) = Some false.
+Proof. exact finite_fill_refuted. Qed.
+Print Assumptions finite_mask_fill_refuted.
+
 (* the pinned scalar clamp (bounds of dimension 0 for every dimension) leaves the box *)
 Theorem maddpg_clamp_refuted :
   exists box y noise, Forall wf_bounds box /\ length y = length box /\ length noise = length box /\
